@@ -26,7 +26,7 @@ func (s *c09Scope) lookup(n string) (string, bool) {
 	return "", false
 }
 
-var c09Kinds = []string{"for", "fn", "partial", "cf", "cfd", "bw", "blk", "if", "cfar"}
+var c09Kinds = []string{"for", "fn", "partial", "cf", "cfd", "bw", "blk", "if", "forit", "formap", "cfar"}
 
 type c09Level struct {
 	kind   int
@@ -112,6 +112,14 @@ func (g *c09Gen) construct(l int, parent *c09Scope) (src, exp string) {
 		child.vars[fmt.Sprintf("lv%d", l)] = "7"
 		bs, be := g.body(l, child)
 		return fmt.Sprintf(`<%%= for (lv%d) in one { %%>`, l) + bs + `<% } %>`, be
+	case "forit", "formap":
+		child.vars[fmt.Sprintf("lv%d", l)] = "7"
+		bs, be := g.body(l, child)
+		iter := "range(7, 7)"
+		if kind == "formap" {
+			iter = `{"k": 7}`
+		}
+		return fmt.Sprintf(`<%%= for (lv%d) in %s { %%>`, l, iter) + bs + `<% } %>`, be
 	case "fn":
 		child.vars[fmt.Sprintf("p%d", l)] = "P"
 		bs, be := g.body(l, child)
@@ -201,7 +209,7 @@ func init() {
 			return s
 		},
 		Run:  c09Run,
-		Rule: "nestings of {for, user-function call, partial with data, contentFor+contentOf with data, contentOf default block with data, block helper using BlockWith(child), block helper using Block(), if, contentFor defined at top level and used at the inner level}; at each level every subset of {let fresh_l, shadowing let o, assignment o = …}; every name (o, fresh names, loop variables, parameters, data names of every level) is probed at the end of each body, after each construct closes and at the end of the template; compared with an environment-chain reference model (let/assign bind in the current scope, lookup outward; for/call/partial/contentOf/BlockWith open a scope, if and Block() do not; a far contentFor block runs in a child of its definition scope). Non-trivial: depth >= 2 with at least one binding action.",
+		Rule: "nestings of {for over a slice / an Iterator / a map, user-function call, partial with data, contentFor+contentOf with data, contentOf default block with data, block helper using BlockWith(child), block helper using Block(), if, contentFor defined at top level and used at the inner level}; at each level every subset of {let fresh_l, shadowing let o, assignment o = …}; every name (o, fresh names, loop variables, parameters, data names of every level) is probed at the end of each body, after each construct closes and at the end of the template; compared with an environment-chain reference model (let/assign bind in the current scope, lookup outward; for/call/partial/contentOf/BlockWith open a scope, if and Block() do not; a far contentFor block runs in a child of its definition scope). Non-trivial: depth >= 2 with at least one binding action.",
 		Bound: func(th bool) string {
 			if th {
 				return "depth <=3, all 8 action subsets per level"
